@@ -18,7 +18,7 @@ def _roles(lines):
     from vsg import parser
     from vsg.token import delimited_comment
 
-    skip = (parser.whitespace, parser.carriage_return, parser.blank_line, parser.comment, delimited_comment.beginning, delimited_comment.text, delimited_comment.ending)
+    skip = (parser.whitespace, parser.carriage_return, parser.blank_line, parser.comment, delimited_comment.beginning, delimited_comment.text, delimited_comment.ending, parser.preprocessor)
     f = vsgapi.parse_only(lines)
     return [(vsgapi.token_class(t), t.get_value().lower()) for t in f.lAllObjects if not isinstance(t, skip) and t.get_value() != ""]
 
